@@ -236,6 +236,27 @@ func c12Nest(t []string) string {
 }
 
 func c12Line(l string, insts map[string]*c12Inst) string {
+	out := c12Line1(l, insts)
+	t := strings.Split(l, " ")
+	if len(t) == 6 && t[1] == "call" && out != "bad-op" {
+		// the same call with boundary values for everything that is not a repository name, on a fresh
+		// wrapper: the decision and the forwarding are the same
+		wrapperArgsBoundary = true
+		b := func() string {
+			defer func() { wrapperArgsBoundary = false }()
+			return c12Line1(l, map[string]*c12Inst{})
+		}()
+		if b != out {
+			return "boundary-differs: {" + out + "} with boundary arguments {" + b + "}"
+		}
+	}
+	if len(t) == 6 && t[1] == "list" && strings.Contains(out, "events=[!p:") {
+		_ = out
+	}
+	return out
+}
+
+func c12Line1(l string, insts map[string]*c12Inst) string {
 	t := strings.Split(l, " ")
 	if len(t) == 7 && (t[0] == "ac" || t[0] == "sel") && t[1] == "nest" {
 		return c12Nest(t)
@@ -259,6 +280,9 @@ func c12Line(l string, insts map[string]*c12Inst) string {
 		res := m.Call(args)
 		calls := showRecCalls(b.Calls, args)
 		if e := resultError(res); e != nil {
+			if e == errSeqUnstable {
+				return "seq-unstable calls=" + calls
+			}
 			if c := policyErr(e); c != "" {
 				return "rejected " + c + " calls=" + calls
 			}
@@ -587,6 +611,14 @@ func (*c12) Oracle(c Case, impl []string) []Failure {
 			continue
 		}
 		if len(t) != 6 {
+			continue
+		}
+		if strings.HasPrefix(got, "seq-unstable") {
+			fail("c12-seq-unstable:"+t[2], "rejection_is_delivered_on_every_iteration", "the same events each time the returned sequence is iterated")
+			continue
+		}
+		if strings.HasPrefix(got, "boundary-differs: ") {
+			fail("c12-boundary-differs:"+t[2], "decision_independent_of_other_arguments", "the same rejection / forwarding whatever the non-repository arguments are")
 			continue
 		}
 		if got == "panic" {
